@@ -19,8 +19,9 @@
 //!   * per owner: multiset nf(output chars) vs multiset nf(owned input chars):
 //!       missing  only default ignorables, when REMOVE (0x8) is set, or hidden as the space glyph when
 //!                neither REMOVE nor PRESERVE (0x4) is set (an extra U+0020 pays for each);
-//!       extra    only U+25CC, when the font maps it and DO_NOT_INSERT_DOTTED_CIRCLE (0x10) is clear;
-//!   * glyph 0 (.notdef) in the output or a panic is a violation.
+//!       extra    only U+25CC, when DO_NOT_INSERT_DOTTED_CIRCLE (0x10) is clear (on the font without U+25CC
+//!                glyph 0 is read as the inserted U+25CC character, see `judge`);
+//!   * glyph 0 (.notdef) on the font WITH U+25CC, or a panic, is a violation.
 //! Output: `viol ...`, `case ...` (sample for the Python re-check), `stat ...` per pool, `done`.
 use crate::fontgen::{self, FontSpec};
 use crate::shp::{dir_name, fmt_req, parse_req, Req};
@@ -36,6 +37,7 @@ struct Pool {
     script: Option<String>,
     text: Vec<u32>,
     font: Vec<u32>,
+    shaper: String,
 }
 
 #[derive(Default)]
@@ -81,6 +83,8 @@ fn read_spec() -> Spec {
                         p.text = hexlist(v);
                     } else if let Some(v) = tok.strip_prefix("font=") {
                         p.font = hexlist(v);
+                    } else if let Some(v) = tok.strip_prefix("shaper=") {
+                        p.shaper = v.to_string();
                     }
                 }
                 sp.pools.push(p);
@@ -188,6 +192,9 @@ struct Stat {
     merged: u64,
     removed: u64,
     hidden: u64,
+    notdef_dotted: u64,
+    known_forced: u64,
+    known_zwnj: u64,
     viol: u64,
 }
 
@@ -200,19 +207,26 @@ struct Verdict {
     merged: bool,
     removed: bool,
     hidden: bool,
+    notdef_dotted: bool,
 }
 
 /// The per-cluster content oracle.  `out`: (recovered char, cluster), 0 = .notdef.
 fn judge(cx: &Ctx, req: &Req, has25cc: bool, out: &[(u32, u32)]) -> Verdict {
-    let mut v = Verdict { why: None, dotted: false, reordered: false, decomposed: false, composed: false, merged: false, removed: false, hidden: false };
+    let mut v = Verdict { why: None, dotted: false, reordered: false, decomposed: false, composed: false, merged: false, removed: false, hidden: false, notdef_dotted: false };
     let flags = req.flags;
     let remove = flags & 0x8 != 0;
     let preserve = flags & 0x4 != 0;
-    let dotted_ok = has25cc && flags & 0x10 == 0;
-    if out.iter().any(|(c, _)| *c == 0) {
+    // U+25CC is inserted as a CHARACTER before cmap mapping by preprocess_text_vowel_constraints (no font test
+    // there, as in HarfBuzz): on a font without U+25CC it surfaces as .notdef.  Every other character the
+    // shapers can produce is mapped by construction, so glyph 0 is read as U+25CC in that font variant.
+    let dotted_ok = flags & 0x10 == 0;
+    if has25cc && out.iter().any(|(c, _)| *c == 0) {
         v.why = Some("notdef-in-output".into());
         return v;
     }
+    let out_owned: Vec<(u32, u32)> = out.iter().map(|(c, k)| (if *c == 0 { 0x25CC } else { *c }, *k)).collect();
+    v.notdef_dotted = out.iter().any(|(c, _)| *c == 0);
+    let out = &out_owned[..];
     let mut owners: Vec<u32> = out.iter().map(|(_, k)| *k).collect();
     owners.sort();
     owners.dedup();
@@ -394,6 +408,7 @@ struct Runner<'a> {
     lines: Vec<String>,
     sample_every: u64,
     viol_limit: u64,
+    per_class: HashMap<String, u64>,
 }
 
 impl<'a> Runner<'a> {
@@ -407,6 +422,20 @@ impl<'a> Runner<'a> {
             }
         };
         self.one_face(&face, req, f25);
+    }
+
+    fn passes(&self, face: &Face, req: &Req, f25: bool) -> bool {
+        let font = &self.fonts[f25 as usize];
+        match shape(face, req) {
+            Ok(gs) => {
+                let out: Vec<(u32, u32)> = gs
+                    .iter()
+                    .map(|(g, k)| (if *g == 0 || *g as usize > font.chars.len() { 0 } else { font.chars[*g as usize - 1] }, *k))
+                    .collect();
+                judge(self.cx, req, font.has25cc, &out).why.is_none()
+            }
+            Err(_) => false,
+        }
     }
 
     fn one_face(&mut self, face: &Face, req: &Req, f25: bool) {
@@ -426,14 +455,56 @@ impl<'a> Runner<'a> {
                 self.stat.merged += v.merged as u64;
                 self.stat.removed += v.removed as u64;
                 self.stat.hidden += v.hidden as u64;
+                self.stat.notdef_dotted += v.notdef_dotted as u64;
                 (out, v.why)
             }
             Err(e) => (Vec::new(), Some(format!("panic-{}", e))),
         };
         if let Some(w) = why {
-            self.stat.viol += 1;
-            if self.stat.viol <= self.viol_limit {
-                self.lines.push(format!("viol pool={} f25={} {} out={} why={}", self.pool.name, f25 as u8, fmt_req(req), fmt_out(&out), w));
+            // known-finding classes, decided on the INPUT (see props/C08.py KNOWN_CLASSES):
+            //  forced_direction_regrouping: the direction is forced and the same request with the direction left
+            //    to the script passes;
+            //  indic_zwnj_cluster_split: Indic-shaper script, the text contains U+200C and the same request with
+            //    every U+200C removed passes.
+            let mut known: Option<&str> = None;
+            if !w.starts_with("panic") {
+                if req.dir.is_some() {
+                    let mut r2 = req.clone();
+                    r2.dir = None;
+                    if self.passes(face, &r2, f25) {
+                        known = Some("forced_direction_regrouping");
+                    }
+                }
+                if known.is_none() && self.pool.shaper == "indic" && req.text.iter().any(|(c, _)| *c == 0x200C) {
+                    let mut r2 = req.clone();
+                    r2.text = req.text.iter().filter(|(c, _)| *c != 0x200C).enumerate().map(|(i, (c, _))| (*c, i as u32)).collect();
+                    if self.passes(face, &r2, f25) {
+                        known = Some("indic_zwnj_cluster_split");
+                    }
+                }
+            }
+            let tag = match known {
+                Some("forced_direction_regrouping") => {
+                    self.stat.known_forced += 1;
+                    "known class=forced_direction_regrouping"
+                }
+                Some(_) => {
+                    self.stat.known_zwnj += 1;
+                    "known class=indic_zwnj_cluster_split"
+                }
+                None => {
+                    self.stat.viol += 1;
+                    "viol"
+                }
+            };
+            // keep a few examples per (reason class, native/forced direction, joiner), shortest first by construction
+            let class: String = w.chars().filter(|c| !c.is_ascii_digit() && !('A'..='F').contains(c)).collect();
+            let joiner = req.text.iter().map(|(c, _)| *c).find(|c| *c == 0x200C || *c == 0x200D).unwrap_or(0);
+            let key = format!("{}|{}|{}|{:X}", tag, class, req.dir.is_none(), joiner);
+            let n = self.per_class.entry(key).or_insert(0);
+            *n += 1;
+            if *n <= self.viol_limit {
+                self.lines.push(format!("{} pool={} f25={} {} out={} why={}", tag, self.pool.name, f25 as u8, fmt_req(req), fmt_out(&out), w));
             }
         } else if self.sample_every > 0 && self.stat.shapes % self.sample_every == 0 {
             self.lines.push(format!("case pool={} f25={} {} out={}", self.pool.name, f25 as u8, fmt_req(req), fmt_out(&out)));
@@ -485,7 +556,7 @@ fn run_pool(cx: &Ctx, pool: &Pool, maxlen: usize, nrandom: u64, rlen: u64, seed:
         total += pw * if l <= full_upto { 32 } else { 8 };
     }
     total += nrandom * 8;
-    let mut r = Runner { cx, pool, fonts, stat: Stat::default(), lines: Vec::new(), sample_every: if sample == 0 { 0 } else { (total / sample).max(1) }, viol_limit: 40 };
+    let mut r = Runner { cx, pool, fonts, stat: Stat::default(), lines: Vec::new(), sample_every: if sample == 0 { 0 } else { (total / sample).max(1) }, viol_limit: 6, per_class: HashMap::new() };
     // exhaustive
     let mut idx: Vec<usize> = Vec::new();
     for l in 1..=maxlen {
@@ -543,7 +614,7 @@ fn one() {
             println!("viol pool={} f25={} {} out=- why=unknown-pool", pname, *f25 as u8, fmt_req(req));
             continue;
         };
-        let mut r = Runner { cx: &cx, pool, fonts: [make_font(pool, false), make_font(pool, true)], stat: Stat::default(), lines: Vec::new(), sample_every: 1, viol_limit: 1000 };
+        let mut r = Runner { cx: &cx, pool, fonts: [make_font(pool, false), make_font(pool, true)], stat: Stat::default(), lines: Vec::new(), sample_every: 1, viol_limit: 1000, per_class: HashMap::new() };
         r.one(req, *f25);
         for l in &r.lines {
             println!("{}", l);
@@ -594,8 +665,8 @@ fn search(args: &[String]) {
             println!("{}", l);
         }
         println!(
-            "stat pool={} strings={} shapes={} dotted={} reordered={} decomposed={} composed={} merged={} removed={} hidden={} viol={} ms={}",
-            pools[*i].name, st.strings, st.shapes, st.dotted, st.reordered, st.decomposed, st.composed, st.merged, st.removed, st.hidden, st.viol, ms
+            "stat pool={} strings={} shapes={} dotted={} reordered={} decomposed={} composed={} merged={} removed={} hidden={} notdef_dotted={} known_forced={} known_zwnj={} viol={} ms={}",
+            pools[*i].name, st.strings, st.shapes, st.dotted, st.reordered, st.decomposed, st.composed, st.merged, st.removed, st.hidden, st.notdef_dotted, st.known_forced, st.known_zwnj, st.viol, ms
         );
     }
     let _ = dir_name(None);
